@@ -76,6 +76,10 @@ def existing_workspaces(root, mode):
 def run_case(ctx, case, confirm=False):
     run = bobproc.script if confirm else bobproc.direct
     model, mode = case["model"], case["mode"]
+    if case.get("variants"):
+        model = projgen.add_variants(model, case["variants"])
+    if case.get("clones"):
+        model = projgen.add_clones(model, case["clones"])
     base = ctx.tmpdir()
     W = os.path.join(base, "w"); X = os.path.join(base, "other", "x")
     os.makedirs(W); os.makedirs(X)
@@ -194,7 +198,7 @@ def run_case(ctx, case, confirm=False):
         vlib.rmtree(base)
 
 CHURN = ["dep_remove", "dep_remove", "dep_add", "var_value", "var_value", "define", "default_env", "frag", "revert",
-         "dep_param", "varlist", "provide_var", "tool_use", "class_frag"]
+         "dep_param", "varlist", "provide_var", "tool_use", "class_frag", "variant", "variant", "variant"]
 I = st.integers(0, 30)
 churn_edit = st.tuples(st.sampled_from(CHURN), I, I, I, I).map(list)
 
@@ -203,6 +207,8 @@ def case_st(quick):
         "model": projgen.model_st(3, 6, richness=1, dense=True),
         "edits": st.lists(churn_edit, min_size=2, max_size=4 if quick else 6),
         "mode": st.sampled_from(["dev", "dev", "build"]),
+        "variants": st.sampled_from([None, None, 3, 4]),
+        "clones": st.sampled_from([None, None, 2, 3]),
         "cleans": st.dictionaries(st.sampled_from(["1", "2", "3", "4"]),
                                   st.tuples(st.sampled_from(["dev", "build"]), st.booleans()).map(list), min_size=1, max_size=2),
     }).map(lambda c: dict(c, cleans={k: [c["mode"] if i == 0 else v[0], v[1]] for i, (k, v) in enumerate(sorted(c["cleans"].items()))}))
